@@ -7,7 +7,7 @@ import (
 	"testing"
 
 	"polysim/cli"
-	_ "polysim/engines"
+	_ "polysim/engines/storage"
 )
 
 func TestSim(t *testing.T) { cli.Main(t) }
